@@ -81,6 +81,13 @@ def blocksOK (periods : List Period) : Nat → List Nat → Bool
   | _, [] => true
   | h, m :: ms => rewardsBlockOK (currentPeriod periods h) h m && blocksOK periods (h + 1) ms
 
+/-- Where a block's depth rewards end up (as observed across one EndBlocker): the rowan created by
+    the block is exactly what was paid to providers plus what was credited to pools' native
+    balances — what cannot be handed out is burnt in the same block — and the clp module account
+    keeps exactly the coins that back the pool credits. -/
+def rewardsAccountedOK (created paid pooled moduleDelta : Nat) : Bool :=
+  decide (created = paid + pooled) && decide (moduleDelta = pooled)
+
 /-- per-period clause: a period never creates more than its allocation -/
 def rewardsPeriodOK (p : Period) (total : Nat) : Bool := decide (total ≤ p.alloc)
 
